@@ -328,7 +328,11 @@ def _format_default_value(
         type_ = type_.type
 
     if isinstance(dv, str) and isinstance(type_, ScalarType):
-        return '"%s"' % dv
+        # The default is an internal value, what is reported is its external
+        # form (they differ for scalars with a transforming serializer).
+        serialized = type_.serialize(dv)
+        if isinstance(serialized, str):
+            return '"%s"' % serialized
 
     # The default value is exposed as GraphQL syntax (enum names, lists,
     # input objects...), not as JSON.
